@@ -611,8 +611,10 @@ class SocksRun(object):
             if not self.result or self.result[0][0] != 'err':
                 sim.fail('C06.unencodable-target-not-refused', 'target %r (%s) did not produce an error: %r' % (
                     self.host[:40], self.req_type, self.result))
-            if self.peer is not None and len(self.peer.all) > 3:
-                sim.fail('C06.unencodable-target-sent', 'bytes %s were sent for an unencodable target' % bytes(self.peer.all[3:]).hex()[:60])
+            written = bytes(self.conn.transport.written) if self.conn is not None else b''
+            if len(written) > 3:
+                sim.fail('C06.unencodable-target-sent', 'bytes %s were written after the greeting for an unencodable target (%r)' % (
+                    written[3:].hex()[:60], self.host[:30]))
             return
         if self.peer is None:
             raise HarnessError('no connection was made')
